@@ -82,6 +82,25 @@ theorem glob_one_entry_per_current_child (t : Tree) (sub : Schema) (topo : TopoE
                 injection h1 with h1; injection h1 with h1a h1b
                 subst h1a; subst h1b; exact h2
 
+/-- **The empty sub-schema shows nothing of the members** (`{'*': {}}`): every entry of such a glob port
+is the empty dictionary — one per current child (`glob_one_entry_per_current_child`) and nothing of what
+other processes declared below it — unless the child is itself a variable, which is shown as that
+variable. -/
+theorem glob_empty_subschema_entries_empty (t : Tree) (topo : TopoEs) (pos : Path)
+    (st : List (String × View))
+    (h : view t (.dict false [("*", .dict false [])]) topo pos = .ok (.dict st)) :
+    ∀ c W, AL.get c st = some W → W = .dict [] ∨ ∃ p, W = .store p := by
+  obtain ⟨node, st', n, _, _, _, hall⟩ := glob_one_entry_per_current_child t (.dict false []) topo pos st h
+  intro c W hg
+  have hv := hall c W hg
+  unfold view at hv
+  cases hf : t.find (node ++ [c]) with
+  | none => simp [hf] at hv
+  | some self =>
+    simp only [hf] at hv
+    by_cases hl : self.isLeaf = true
+    · simp [hl] at hv; exact Or.inr ⟨_, hv.symm⟩
+    · simp [hl, viewEntries] at hv; exact Or.inl hv.symm
 /-- **An `_output` port is empty** (unless the store it is wired to is itself a variable, which is
 then shown whole). -/
 theorem output_port_empty (t : Tree) (es : SchemaEs) (topo : TopoEs) (pos : Path) (V : View)
